@@ -2,7 +2,7 @@
 //! simulated clock is installed on the calling thread, mtimes are not
 //! translated.
 
-use std::cell::RefCell;
+use std::sync::Mutex;
 use std::collections::HashMap;
 use std::fs::Metadata;
 use std::os::unix::fs::MetadataExt as _;
@@ -15,9 +15,8 @@ pub struct SimClock {
     pub stamps: HashMap<(u64, u64), (i128, i128, u64, i64)>,
 }
 
-thread_local! {
-    pub static CLOCK: RefCell<Option<SimClock>> = const { RefCell::new(None) };
-}
+/// Process-global: jj's snapshot stats files on rayon worker threads.
+pub static GLOBAL_CLOCK: Mutex<Option<SimClock>> = Mutex::new(None);
 
 fn real_key(m: &Metadata) -> (i128, i128, u64) {
     (
@@ -51,9 +50,7 @@ impl SimClock {
 }
 
 pub fn translate_mtime(metadata: &Metadata) -> Option<i64> {
-    CLOCK.with(|c| {
-        let mut c = c.borrow_mut();
-        let clock = c.as_mut()?;
-        Some(clock.stamp(metadata))
-    })
+    let mut c = GLOBAL_CLOCK.lock().unwrap();
+    let clock = c.as_mut()?;
+    Some(clock.stamp(metadata))
 }
